@@ -1101,12 +1101,13 @@ def clientRd (w : World) (si : Nat) : Nat → Stream.Sock → World
          | none => w)
       | (.closed _, s') => clientRd (streamConnect w si true) si fuel { script := s'.script }
 
-/-- one episode: the connection is brought up, the reader reads what the peer's script (ending with the peer closing) holds -/
+/-- one episode: the connection is brought up (first episode), the reader reads what the peer's script holds and is left blocked on
+    its connection (the script ends behind whole messages, or with the peer closing) -/
 def srvConn (w : World) (si : Nat) (script : List Stream.Ev) : World :=
   let up := match getSrv w si with | some s => s.rdUp | none => false
   -- the first episode brings the connection up; later ones find the reader blocked on the connection the last one ended with
   let w := if up then w else updSrv (streamConnect w si false) si fun s => { s with rdUp := true }
-  clientRd w si ((Stream.dataOf script).length + 2 * script.length + 8) { script := script ++ [.eof] }
+  clientRd w si ((Stream.dataOf script).length + 2 * script.length + 8) { script := script }
 
 /-! ### histories -/
 
@@ -1130,6 +1131,7 @@ inductive Op
   | tcpconn (src : Bytes) (script : List Stream.Ev)   -- a whole TCP connection from address `src` whose peer follows the script
   | rmserver (si : Nat)                 -- the writer of server `si` finds its reader gone: the server object is released
   | srvconn (si : Nat) (script : List Stream.Ev)      -- the stream connection to server `si` is brought up and its reader reads the peer's script
+  | srvnext (si n : Nat)                -- the identifier cursor of server `si` stands at `n` (as after that many requests went out)
 
 /-- one operation -/
 def step (w : World) : Op → World
@@ -1154,6 +1156,7 @@ def step (w : World) : Op → World
   | .tcpconn src script => tcpConn w src script
   | .rmserver si => rmserver w si
   | .srvconn si script => srvConn w si script
+  | .srvnext si n => updSrv w si fun s => { s with nextid := min n 256 }
 
 
 end Rsp.World
